@@ -2076,7 +2076,7 @@ func NegateVal(operand Value) Value {
 	if operand.IsReference() {
 		switch o := operand.AsReference().(type) {
 		case *BigInt:
-			return Ref(o.Negate())
+			return o.Negate().Normalize()
 		case *BigFloat:
 			return Ref(o.Negate())
 		case Float64:
@@ -2152,7 +2152,7 @@ func IncrementVal(operand Value) Value {
 	if operand.IsReference() {
 		switch o := operand.AsReference().(type) {
 		case *BigInt:
-			return Ref(o.Increment())
+			return o.Increment().Normalize()
 		case Int64:
 			return (o + 1).ToValue()
 		case UInt64:
